@@ -242,7 +242,7 @@ theorem ghost_set_only_by_accepted_pap (s : Srv) (i : In) (sid : Nat) (x' : Sess
     (h : AMap.lookup (step s i).1.sessions sid = some x') (ha : x'.everAuthed = true) :
     (∃ x, AMap.lookup s.sessions sid = some x ∧ x.everAuthed = true) ∨
     (∃ m g r x, i = .pap m sid g r ∧ AMap.lookup s.sessions sid = some x ∧ x.mac = m ∧
-        (s.radius = true → r = .accept)) := by
+        (s.radius = true → r = .accept ∧ g ≠ .empty)) := by
   -- a session updated in place keeps its ghost unless the update is the accepted-PAP branch
   have keep : ∀ (k : Nat) (x y : Sess), AMap.lookup s.sessions k = some x →
       AMap.lookup (AMap.insert s.sessions k y) sid = some x' → y.everAuthed = x.everAuthed →
@@ -303,8 +303,8 @@ theorem ghost_set_only_by_accepted_pap (s : Srv) (i : In) (sid : Nat) (x' : Sess
           subst e
           refine Or.inr ⟨m, g, r, x, rfl, hx, hm, ?_⟩
           intro hr
-          simp only [papOk, hr, if_true, decide_eq_true_eq] at hok
-          exact hok
+          simp only [papOk, hr, if_true, Bool.and_eq_true, decide_eq_true_eq] at hok
+          exact ⟨hok.2, hok.1⟩
         · exact Or.inl ⟨x', h, ha⟩
       · simp only [lookup_erase, poolRelease_sessions] at h
         split at h
@@ -329,9 +329,9 @@ theorem ghost_set_only_by_accepted_pap (s : Srv) (i : In) (sid : Nat) (x' : Sess
 /-! non-vacuity: a concrete history reaches an established, addressed session (so the theorems are not
     about an empty set of states), and a foreign frame really is ignored -/
 example : (AMap.lookup (run (init true 30)
-    [.padr 1 true, .lcp 1 1 .cack, .pap 1 1 true .accept, .ipcp 1 1 .cack]).sessions 1).map
+    [.padr 1 true, .lcp 1 1 .cack, .pap 1 1 .good .accept, .ipcp 1 1 .cack]).sessions 1).map
       (fun x => (x.state, x.ip, x.everAuthed)) = some (.est, some 2, true) := by decide
-example : (run (init true 30) [.padr 1 true, .ipcp 1 1 .cack, .pap 2 1 true .accept]).sessions =
+example : (run (init true 30) [.padr 1 true, .ipcp 1 1 .cack, .pap 2 1 .good .accept]).sessions =
     (run (init true 30) [.padr 1 true]).sessions := by decide
 
 end Bng.Spec.C04
